@@ -97,6 +97,61 @@ fn main() {
             }
             println!("OK readers");
         }
+        "readers-struct" => {
+            // the cell contains itself through a struct and through another cell
+            let interp = Interpreter::with_stdlib();
+            let c = Code::parse(&interp, "c := mut any 0; c = struct{me := c, n := mut any c}; c").expect("accepted").exec().expect("runs");
+            let reader = function("(c: mut any) -> int { return std.len(std.convert.to_string(c)) + std.len(std.convert.to_string(c)) }");
+            let writer = function("(c: mut any) -> int { c = struct{me := c, n := 2}; c = (c, 3); return 0 }");
+            let hs: Vec<_> = [reader, writer]
+                .into_iter()
+                .map(|f| {
+                    let c = c.clone();
+                    std::thread::spawn(move || f.create_call(vec![c]).expect("call").exec().expect("runs"))
+                })
+                .collect();
+            for h in hs {
+                h.join().expect("thread");
+            }
+            println!("OK readers-struct");
+        }
+        "failing" => {
+            // one thread increments, one applies failing compound assignments: the cell ends at start + increments
+            let cell = Arc::new(simplesl::variable::Mut { var_type: simplesl::variable::Type::Int, variable: std::sync::RwLock::new(Variable::Int(10)) });
+            let inc = function("(c: mut int) -> int { c += 1; c += 1; return *c }");
+            let bad = function("(c: mut int, x: int) -> int { return c /= x }");
+            let bad2 = function("(c: mut int, x: int) -> int { return c <<= x }");
+            let (c1, c2) = (cell.clone(), cell.clone());
+            let a = std::thread::spawn(move || inc.create_call(vec![Variable::Mut(c1)]).expect("call").exec().expect("runs"));
+            let b = std::thread::spawn(move || {
+                let r1 = bad.create_call(vec![Variable::Mut(c2.clone()), Variable::Int(0)]).expect("call").exec();
+                let r2 = bad2.create_call(vec![Variable::Mut(c2), Variable::Int(64)]).expect("call").exec();
+                assert!(r1.is_err() && r2.is_err(), "failing assignments must fail: {r1:?} {r2:?}");
+            });
+            a.join().expect("thread");
+            b.join().expect("thread");
+            assert_eq!(int(&cell.variable.read().expect("lock")), 12);
+            println!("OK failing");
+        }
+        "run-state" => {
+            // state created by a run (default cell of an exhausted `? mut int`, iterator position) is not shared between runs
+            let f = function("(n: int) -> int { it := [mut 1, 2]~ ? mut int; it(); d := it().1; d += n; return *d }");
+            let hs: Vec<_> = (1..3)
+                .map(|t| {
+                    let f = f.clone();
+                    std::thread::spawn(move || {
+                        let a = int(&f.clone().create_call(vec![Variable::Int(t)]).expect("call").exec().expect("runs"));
+                        let b = int(&f.create_call(vec![Variable::Int(t)]).expect("call").exec().expect("runs"));
+                        (a, b)
+                    })
+                })
+                .collect();
+            for (t, h) in hs.into_iter().enumerate() {
+                let n = t as i64 + 1;
+                assert_eq!(h.join().expect("thread"), (n, n));
+            }
+            println!("OK run-state");
+        }
         other => panic!("unknown workload {other}"),
     }
 }
